@@ -18,7 +18,7 @@ for mod in (mirblocks, mirflow, mirpaths, mirload, mirquery, mirorder, mirparse,
     for name, f in inspect.getmembers(mod, inspect.isfunction):
         if name.startswith("replay_") and f.__module__ == mod.__name__:
             recipes.append((mod.__name__ + "." + name, f))
-for name in ("replay_in_empty", "replay_variable_twice", "replay_binary_not", "replay_rules_file", "replay_when_block", "replay_rule_when", "replay_empty_data_collection"):
+for name in ("replay_in_empty", "replay_variable_twice", "replay_binary_not", "replay_rules_file", "replay_when_block", "replay_rule_when", "replay_empty_data_collection", "replay_params_mixed_roots"):
     recipes.append(("miragg.Agg." + name, lambda a_, n=name: getattr(a_, n)({}) if n != "replay_data_inputs" else None))
 for name, f in recipes:
     try:
